@@ -361,6 +361,20 @@ func CheckC10(t Target, src *choice.Src, st *Stats) *Violation {
 	}
 	// "the complete generated source" is what the same world writes to a fresh path: whatever -o
 	// was before (a file with other content and mode, a symbolic link), the bytes must be the same
+	if ref.Exit != 0 && mustFail(w) == "" && (w.OutKind == "symlink" || w.OutKind == "symlink-chain" || w.OutKind == "symlink-dangling" || (w.OutKind == "file" && w.PreOut != nil)) {
+		// the other direction: a writable -o - an existing file, a link or a chain of links to a file or to a
+		// place where a file can be created - is no reason to fail: the same world with a fresh path decides
+		fw := w.Clone()
+		fw.OutKind, fw.PreOut, fw.Out = "file", nil, "fresh_output_twin.go"
+		fr := Exec(t, fw)
+		if st != nil {
+			st.note(fw, fr)
+			st.Probes["fresh-output-twins"]++
+		}
+		if fr.Exit == 0 {
+			return c10Violation("nofault:fails-only-because-of-what-is-at-o:"+w.OutKind, fmt.Sprintf("the build fails (exit %d) with -o %s (%s), but succeeds when the same world writes to a fresh path: the output was writable\n%s", ref.Exit, w.Out, w.OutKind, tail(ref.Stdout, 8)), w, fw)
+		}
+	}
 	if ref.Exit == 0 && g != nil && (w.PreOut != nil || w.OutKind == "symlink") {
 		fw := w.Clone()
 		fw.OutKind, fw.PreOut, fw.Out = "file", nil, "fresh_output_twin.go"
@@ -582,6 +596,13 @@ func tail(s string, n int) string {
 func replayC10(t Target, v *Violation) (string, string) {
 	w := v.Worlds[0]
 	ref := Exec(t, w)
+	if strings.HasPrefix(v.Sig, "nofault:fails-only-because-of-what-is-at-o") && len(v.Worlds) == 2 {
+		fr := Exec(t, v.Worlds[1])
+		if ref.Exit != 0 && fr.Exit == 0 {
+			return v.Sig, fmt.Sprintf("exit %d with the given -o, exit 0 with a fresh path", ref.Exit)
+		}
+		return "", ""
+	}
 	if strings.HasPrefix(v.Sig, "nofault:exit0-incomplete-output:differs-from-fresh-path") && len(v.Worlds) == 2 {
 		fr := Exec(t, v.Worlds[1])
 		if ref.Exit == 0 && fr.Exit == 0 && fr.Out.Sha != ref.Out.Sha {
@@ -681,5 +702,5 @@ func judgeConcurrent(cw *World, cr, ref *Result, g *FileObs) (string, string) {
 
 // outIsFile: -o ends up as (a link to) a regular file whose bytes can be compared.
 func outIsFile(w *World) bool {
-	return w.OutKind == "file" || w.OutKind == "symlink" || w.OutKind == "symlink-dangling"
+	return w.OutKind == "file" || w.OutKind == "symlink" || w.OutKind == "symlink-dangling" || w.OutKind == "symlink-chain"
 }
